@@ -568,6 +568,12 @@ func satisfiable(lits []Lit) bool {
 	for _, l := range lits {
 		bySub[l.Subject] = append(bySub[l.Subject], l)
 	}
+	// a length is not negative (`!(len(x) > 0)` and `!(len(x) == 0)` cannot both hold)
+	for sub, ls := range bySub {
+		if strings.HasPrefix(sub, "len(") && !strings.Contains(sub, "−") && len(ls) > 1 && ls[0].IsInt {
+			bySub[sub] = append(ls, Lit{Subject: sub, Op: token.GEQ, C: "0", N: 0, IsInt: true, Val: true})
+		}
+	}
 	for _, ls := range bySub {
 		allInt := true
 		for _, l := range ls {
@@ -679,9 +685,16 @@ type TabOpts struct {
 	// InlineAlso: confirmed functions that this enumeration walks in place as well (a three-way helper whose table is
 	// decided separately, called where the comparison used to be written out).
 	InlineAlso map[*ssa.Function]bool
+	// KeepCall: functions that stay calls even when they are freshly written (a comparator whose answer the rule
+	// wants to read as the answer of a call)
+	KeepCall map[*ssa.Function]bool
 	// InitBind: parameters of the function the enumeration starts in that are bound from the outset (the enumeration
 	// starts inside a freshly extracted helper, in the context of the one call that reaches it).
 	InitBind map[*ssa.Parameter]ssa.Value
+	// StartHavoc: the enumeration starts at a loop header in "some later iteration" (as if it had been reached through
+	// a back-edge): header phis whose back-edges all carry one loop-invariant value have that value, counters are
+	// above their start
+	StartHavoc bool
 }
 
 // inlinable is set at load time: a module function with a body that was not part of the tree the rules were confirmed
@@ -965,7 +978,7 @@ func EnumLits(start *ssa.BasicBlock, idx int, o TabOpts) ([]*LPath, bool) {
 				}
 			}
 			if call, ok := in.(*ssa.Call); ok && !o.NoInline && inlinable != nil && len(ps.Stack) < maxInlineDepth {
-				if f := call.Common().StaticCallee(); f != nil && len(f.Blocks) > 0 && len(f.FreeVars) == 0 && (inlinable(f) || o.InlineAlso[f]) && len(call.Common().Args) == len(f.Params) && !onStack(ps, f) {
+				if f := call.Common().StaticCallee(); f != nil && len(f.Blocks) > 0 && len(f.FreeVars) == 0 && (inlinable(f) || o.InlineAlso[f]) && !o.KeepCall[f] && len(call.Common().Args) == len(f.Params) && !onStack(ps, f) {
 					if ps.Bind == nil {
 						ps.Bind = map[*ssa.Parameter]ssa.Value{}
 					}
@@ -1078,7 +1091,7 @@ func EnumLits(start *ssa.BasicBlock, idx int, o TabOpts) ([]*LPath, bool) {
 								// `return a == b` over two booleans: each outcome in its two ways
 								for _, alt := range alts {
 									nl, good := o.Termer.altLits(alt, fr.lits, ps)
-									if !good || !satisfiable(append(append([]Lit(nil), nl...), o.Assume...)) {
+									if !good || !satisfiable(append(append(append([]Lit(nil), nl...), o.Assume...), o.Termer.inductLits(ps)...)) {
 										continue
 									}
 									afr := fr
@@ -1094,7 +1107,7 @@ func EnumLits(start *ssa.BasicBlock, idx int, o TabOpts) ([]*LPath, bool) {
 							} else if l, ok := o.Termer.litOf(v, outcome, ps); ok {
 								l.PS = ps
 								nl := append(append([]Lit(nil), fr.lits...), l)
-								if !satisfiable(append(append([]Lit(nil), nl...), o.Assume...)) {
+								if !satisfiable(append(append(append([]Lit(nil), nl...), o.Assume...), o.Termer.inductLits(ps)...)) {
 									continue
 								}
 								nfr.lits = nl
@@ -1152,7 +1165,7 @@ func EnumLits(start *ssa.BasicBlock, idx int, o TabOpts) ([]*LPath, bool) {
 					// `if a == b` over two booleans: the branch is taken in two ways
 					for _, alt := range alts {
 						nl, good := o.Termer.altLits(alt, fr.lits, ps)
-						if !good || !satisfiable(append(append([]Lit(nil), nl...), o.Assume...)) {
+						if !good || !satisfiable(append(append(append([]Lit(nil), nl...), o.Assume...), o.Termer.inductLits(ps)...)) {
 							continue
 						}
 						afr := fr
@@ -1166,7 +1179,7 @@ func EnumLits(start *ssa.BasicBlock, idx int, o TabOpts) ([]*LPath, bool) {
 					l = o.Termer.fixNilTypeLit(l, cond, ps)
 					l.PS = ps
 					nl := append(append([]Lit(nil), fr.lits...), l)
-					if !satisfiable(append(append([]Lit(nil), nl...), o.Assume...)) {
+					if !satisfiable(append(append(append([]Lit(nil), nl...), o.Assume...), o.Termer.inductLits(ps)...)) {
 						continue
 					}
 					nfr.lits = nl
@@ -1187,6 +1200,24 @@ func EnumLits(start *ssa.BasicBlock, idx int, o TabOpts) ([]*LPath, bool) {
 					}
 					nps.Havoc[s] = true
 					nps.Gen++
+					if cvals == nil {
+						// a counter that starts at a constant and only ever moves up is, in any later iteration, above
+						// its start: `for i := range xs` has i ≥ 1 from the second iteration on
+						for _, hin := range s.Instrs {
+							ph, isPhi := hin.(*ssa.Phi)
+							if !isPhi {
+								break
+							}
+							if lb, ok := counterLowerBound(ph); ok {
+								ni := make(map[*ssa.Phi]int64, len(nps.Induct)+1)
+								for k2, v2 := range nps.Induct {
+									ni[k2] = v2
+								}
+								ni[ph] = lb
+								nps.Induct = ni
+							}
+						}
+					}
 					if cvals != nil {
 						nv := make(map[ssa.Value]int64, len(ps.Vals)+len(cvals))
 						for k2, v2 := range ps.Vals {
@@ -1201,6 +1232,21 @@ func EnumLits(start *ssa.BasicBlock, idx int, o TabOpts) ([]*LPath, bool) {
 					// iteration the same instruction stands for another value (`x.f = append(x.f, …)` would name
 					// itself), and what the body's loads saw then is not what they see now
 					nps.FLast = nil
+					// … and so is what the body stored into a local cell (`to = append(to, buf...)` on a captured
+					// variable): the next iteration's load of the cell is a value of its own
+					for ib := range loopBody(s) {
+						for _, lin := range ib.Instrs {
+							if st, ok := lin.(*ssa.Store); ok {
+								if al, ok := st.Addr.(*ssa.Alloc); ok {
+									if cv, has := nps.Cells[al]; has {
+										if cin, isIn := cv.(ssa.Instruction); isIn && cin.Block() != nil && loopBody(s)[cin.Block()] {
+											delete(nps.Cells, al)
+										}
+									}
+								}
+							}
+						}
+					}
 					if len(nps.Loaded) > 0 {
 						nl := make(map[*ssa.UnOp]ssa.Value, len(nps.Loaded))
 						body := loopBody(s)
@@ -1236,6 +1282,22 @@ func EnumLits(start *ssa.BasicBlock, idx int, o TabOpts) ([]*LPath, bool) {
 		}
 	}
 	ps0 := &pathState{Cells: map[*ssa.Alloc]ssa.Value{}, Vals: o.Values}
+	if o.StartHavoc {
+		ps0.Havoc = map[*ssa.BasicBlock]bool{start: true}
+		ps0.Gen = 1
+		for _, hin := range start.Instrs {
+			ph, isPhi := hin.(*ssa.Phi)
+			if !isPhi {
+				break
+			}
+			if lb, ok := counterLowerBound(ph); ok {
+				if ps0.Induct == nil {
+					ps0.Induct = map[*ssa.Phi]int64{}
+				}
+				ps0.Induct[ph] = lb
+			}
+		}
+	}
 	if len(o.InitBind) > 0 {
 		ps0.Bind = map[*ssa.Parameter]ssa.Value{}
 		for k, v := range o.InitBind {
@@ -1344,6 +1406,104 @@ func fieldPathKey(fa *ssa.FieldAddr, ps *pathState) string {
 }
 
 const maxConcreteIter = 12
+
+// counterLowerBound: ph is an integer phi of a loop header whose entry values are one constant c0 and whose back-edge
+// values are all `ph + k` with constants k ≥ 1: in an iteration reached through a back-edge ph ≥ c0 + min k.
+func counterLowerBound(ph *ssa.Phi) (int64, bool) {
+	if b, ok := ph.Type().Underlying().(*types.Basic); !ok || b.Info()&types.IsInteger == 0 {
+		return 0, false
+	}
+	h := ph.Block()
+	var c0, step int64
+	haveC, haveStep := false, false
+	for i, e := range ph.Edges {
+		if h.Dominates(h.Preds[i]) {
+			bo, ok := e.(*ssa.BinOp)
+			if !ok || bo.Op != token.ADD || bo.X != ssa.Value(ph) {
+				return 0, false
+			}
+			k, ok := constInt(bo.Y)
+			if !ok || k < 1 {
+				return 0, false
+			}
+			if !haveStep || k < step {
+				step = k
+			}
+			haveStep = true
+		} else {
+			k, ok := constInt(e)
+			if !ok || (haveC && k != c0) {
+				return 0, false
+			}
+			c0, haveC = k, true
+		}
+	}
+	if !haveC || !haveStep {
+		return 0, false
+	}
+	return c0 + step, true
+}
+
+// counterStep: the constant a loop counter advances by on every back-edge (all the same), see counterLowerBound.
+func counterStep(ph *ssa.Phi) (int64, bool) {
+	h := ph.Block()
+	var step int64
+	have := false
+	for i, e := range ph.Edges {
+		if !h.Dominates(h.Preds[i]) {
+			continue
+		}
+		bo, ok := e.(*ssa.BinOp)
+		if !ok || bo.Op != token.ADD || bo.X != ssa.Value(ph) {
+			return 0, false
+		}
+		k, ok := constInt(bo.Y)
+		if !ok || (have && k != step) {
+			return 0, false
+		}
+		step, have = k, true
+	}
+	return step, have
+}
+
+// inductLits: what is known about loop counters in a later iteration (see counterLowerBound), as literals over the
+// counter and over `counter + k` computed in the header (the index variable of a range loop is `phi + 1`).
+func (t *Termer) inductLits(ps *pathState) []Lit {
+	if ps == nil || len(ps.Induct) == 0 {
+		return nil
+	}
+	var out []Lit
+	for ph, lb := range ps.Induct {
+		if !ps.Havoc[ph.Block()] {
+			continue
+		}
+		out = append(out, Lit{Subject: t.Term(ph, ps), Op: token.GEQ, C: fmt.Sprint(lb), N: lb, IsInt: true, Val: true})
+		for _, r := range *ph.Referrers() {
+			if bo, ok := r.(*ssa.BinOp); ok && bo.Op == token.ADD && bo.X == ssa.Value(ph) && bo.Block() == ph.Block() {
+				if k, ok := constInt(bo.Y); ok {
+					out = append(out, Lit{Subject: t.Term(bo, ps), Op: token.GEQ, C: fmt.Sprint(lb + k), N: lb + k, IsInt: true, Val: true})
+					// the header's own test `counter+k < N` held in the iteration before, with the counter at its
+					// start or above: the loop-invariant bound N is above that (a `range xs` in its second
+					// iteration has len(xs) ≥ 1)
+					h := ph.Block()
+					if iff, ok := h.Instrs[len(h.Instrs)-1].(*ssa.If); ok {
+						// (the body is what the test's true outcome leads to; the false outcome leaves the loop)
+						body := loopBody(h)
+						if cmp, ok := iff.Cond.(*ssa.BinOp); ok && cmp.Op == token.LSS && cmp.X == ssa.Value(bo) && len(h.Succs) == 2 && body[h.Succs[0]] && !body[h.Succs[1]] {
+							if nin, ok := cmp.Y.(ssa.Instruction); ok && nin.Block() != nil && nin.Block() != h && nin.Block().Dominates(h) {
+								// previous iteration: counter_prev ≥ lb − step, tested counter_prev + k < N; with k == step (the range form) that is N > lb
+								if k2, ok := counterStep(ph); ok && k2 == k {
+									out = append(out, Lit{Subject: t.Term(cmp.Y, ps), Op: token.GEQ, C: fmt.Sprint(lb + 1), N: lb + 1, IsInt: true, Val: true})
+								}
+							}
+						}
+					}
+				}
+			}
+		}
+	}
+	return out
+}
 
 // isArrayCell: a local variable of array type whose elements are only read and written element by element (its address
 // does not leave the function and it is not copied or sliced).
